@@ -19,6 +19,7 @@ import (
 	"sort"
 	"strings"
 	"sync/atomic"
+	"syscall"
 	"time"
 )
 
@@ -920,23 +921,37 @@ func Run(cfg Config, root func()) *Result {
 }
 
 // StartWatchdog exits the process with status 2 when no scheduling point is
-// passed for d while a simulation is active.
+// passed for d while a simulation is active.  A task that is visibly computing
+// between two scheduling points (the process keeps using CPU: a 256 MiB copy on
+// a loaded machine) gets four times as long.
 func StartWatchdog(d time.Duration) {
+	cpu := func() time.Duration {
+		var ru syscall.Rusage
+		if syscall.Getrusage(syscall.RUSAGE_SELF, &ru) != nil {
+			return 0
+		}
+		return time.Duration(ru.Utime.Nano() + ru.Stime.Nano())
+	}
 	go func() {
 		last := atomic.LoadInt64(&progress)
 		idle := time.Duration(0)
+		cpu0 := cpu()
 		for {
 			time.Sleep(500 * time.Millisecond)
 			cur := atomic.LoadInt64(&progress)
 			if cur != last || !watchdogArmed() {
-				last, idle = cur, 0
+				last, idle, cpu0 = cur, 0, cpu()
 				continue
 			}
 			idle += 500 * time.Millisecond
-			if idle >= d {
+			limit := d
+			if cpu()-cpu0 >= idle/5 {
+				limit = 4 * d
+			}
+			if idle >= limit {
 				buf := make([]byte, 1<<20)
 				n := runtime.Stack(buf, true)
-				fmt.Fprintf(os.Stderr, "simrt watchdog: no progress for %v\n%s\n", d, buf[:n])
+				fmt.Fprintf(os.Stderr, "simrt watchdog: no progress for %v\n%s\n", idle, buf[:n])
 				os.Exit(2)
 			}
 		}
